@@ -47,8 +47,30 @@ def run(ctx: core.Ctx) -> int:
     init_params = [a.arg for a in init.args.args if a.arg != "self"] + [a.arg for a in init.args.kwonlyargs]
     gp_dict = next((r.value for r in ast.walk(gp) if isinstance(r, ast.Return) and isinstance(r.value, ast.Dict)), None)
     gp_keys = [k.value for k in gp_dict.keys] if gp_dict is not None else None
+    if gp_dict is None:
+        # {k: getattr(self, k) for k in self.allowed_keys}: the table is allowed_keys itself and every entry reads its own attribute
+        dc = next((r.value for r in ast.walk(gp) if isinstance(r, ast.Return) and isinstance(r.value, ast.DictComp)), None)
+        if dc is not None and len(dc.generators) == 1 and isinstance(dc.generators[0].target, ast.Name):
+            kv = dc.generators[0].target.id
+            if ast.unparse(dc.generators[0].iter) in ("self.allowed_keys", "cls.allowed_keys", f"{CLS}.allowed_keys") and ast.unparse(dc.key) == kv \
+                    and ast.unparse(dc.value).replace(" ", "") == f"getattr(self,{kv})" and not dc.generators[0].ifs:
+                gp_keys = list(ak or [])
+        if gp_keys is None:
+            ctx.error(f"{F}:{q('get_params')}: the returned table is neither a dict literal nor {{k: getattr(self, k) for k in self.allowed_keys}}")
+            gp_keys = list(ak or [])
     cr_dict = next((s.value for s in ast.walk(cr) if isinstance(s, ast.Assign) and isinstance(s.value, ast.Dict)), None)
     cr_keys = [k.value for k in cr_dict.keys] if cr_dict is not None else None
+    cr_call = None
+    if cr_dict is None:
+        cr_call = next((c for c in ast.walk(cr) if isinstance(c, ast.Call) and ast.unparse(c.func) in ("cls", CLS) and c.keywords and not c.args), None)
+        if cr_call is not None and all(k.arg for k in cr_call.keywords):
+            cr_keys = [k.arg for k in cr_call.keywords]
+            for k in cr_call.keywords:
+                ctx.oblige("TABLES", f"{F}:{q('Create')}", f"Create passes {k.arg}={ast.unparse(k.value)}", ast.unparse(k.value) == k.arg, file=F, func=q("Create"),
+                           construct=f"Create {k.arg}", msg=f"Create passes {ast.unparse(k.value)} as '{k.arg}'")
+        else:
+            ctx.error(f"{F}:{q('Create')}: how Create passes its parameters to the constructor is not an enumerated idiom")
+            cr_keys = list(ak or [])
     tables = {"allowed_keys": ak, "__init__ parameters": init_params, "get_params keys": gp_keys, "Create keys": cr_keys}
     ref = set(ak or [])
     for name, t in tables.items():
@@ -146,8 +168,9 @@ def run(ctx: core.Ctx) -> int:
     finals = [i for i, s in enumerate(body) if isinstance(s, ast.Expr) and ast.unparse(s.value).startswith("self.set_params(")]
     ctx.oblige("FIT", where, "not result.success -> raise MinimizationFailure before the final set_params", idx_raise is not None and finals and idx_raise < finals[-1],
                file=F, func=q("fit"), construct="failure guard", msg="the final parameters are set even when the optimiser reports failure")
-    soln = [ast.unparse(s.value).replace(" ", "") for s in body if isinstance(s, ast.Assign) and ast.unparse(s.targets[0]) == "soln_as_params"]
-    okf = soln == ["self._inverse_flatten_scoring_params(result.x)"] and finals and ast.unparse(body[finals[-1]].value).replace(" ", "") == "self.set_params(**soln_as_params)"
+    from .. import normstmt as _ns
+    _al = _ns.Aliases(fit, linear_calls=True)
+    okf = bool(finals) and _al.text(body[finals[-1]].value) == "self.set_params(**self._inverse_flatten_scoring_params(result.x))"
     ctx.oblige("FIT", where, "final parameters = reader(result.x)", bool(okf), file=F, func=q("fit"), construct="final params",
                msg="the fitted estimator's parameters are not the reader applied to the optimiser's result")
     # pre-conditions: only `is not None`
